@@ -282,3 +282,70 @@ pub fn threads(n: usize, rng: &mut Rng, out: &mut Out) {
         }
     }
 }
+
+/// Registry suite (C13, C19, C07): (a) every built-in name claimed by a user type and every built-in type registered a
+/// second time — the duplicate-name error must carry the name and both type names; (b) optional groups *inside* the
+/// braces of a constrained parameter, so that different expansions of one template name different constraints
+/// (`/{x:u(6)4}` = `/{x:u64}`, `/{x:u4}`): the unknown-constraint check has to look at every expansion, and a template
+/// that gets in is searched, printed and deleted.
+pub fn regs(size: usize, out: &mut Out) {
+    let names = crate::palette::BUILTIN_NAMES;
+    if out.mine() {
+        for n in names {
+            out.reset();
+            out.new_router(0, KEYS);
+            out.op(format!("constraint 0 dup_{n}"));
+            out.op(format!("constraint 0 re_{n}"));
+            out.op(format!("constraint 0 dup_{n}"));
+            out.insert(0, &format!("/{{x:{n}}}"), 1);
+            out.search(0, "/1");
+            out.search(0, "/true");
+        }
+    }
+    let customs = ["alpha", "nota", "even", "hasslash"];
+    let vals = ["1", "12", "a", "ab", "true", "1.5", "1.2.3.4", "::1", "a/b", "300", "-1"];
+    let shapes: &[(&str, &str)] = &[("/", ""), ("/s/", "/t"), ("/", ".x")];
+    for c in names.iter().chain(customs.iter()) {
+        let cb: Vec<char> = c.chars().collect();
+        for i in 0..=cb.len() {
+            for j in (i + 1)..=cb.len() {
+                if j - i > 1 + size && !(i == 0 && j == cb.len()) {
+                    continue;
+                }
+                for (si, (pre, post)) in shapes.iter().enumerate() {
+                    if si > size {
+                        continue;
+                    }
+                    if !out.mine() {
+                        continue;
+                    }
+                    let a: String = cb[..i].iter().collect();
+                    let m: String = cb[i..j].iter().collect();
+                    let z: String = cb[j..].iter().collect();
+                    let wild = if si == 1 { "*" } else { "" };
+                    let ts = [
+                        format!("{pre}{{{wild}x:{a}({m}){z}}}{post}"),
+                        format!("{pre}{{{wild}x(:{c})}}{post}"),
+                        format!("{pre}{{{wild}x:{a}(}}/{{y:){z}}}{post}"),
+                    ];
+                    for (ti, t) in ts.iter().enumerate() {
+                        if ti > 0 && !(i == 0 && j == 1) {
+                            continue;
+                        }
+                        out.reset();
+                        out.new_router(0, KEYS);
+                        out.op(format!("parse {}", hex(t.as_bytes())));
+                        out.insert(0, t, 7);
+                        out.display(0);
+                        for v in vals {
+                            out.search(0, &format!("{pre}{v}{post}"));
+                            out.search(0, &format!("{pre}{v}/{v}{post}"));
+                        }
+                        out.delete(0, t);
+                        out.display(0);
+                    }
+                }
+            }
+        }
+    }
+}
